@@ -223,6 +223,7 @@ class Env:
         self.ctx, self.vars, self.pc, self.self_ty = ctx, dict(vars or {}), pc, self_ty
         self.returns = []
         self.conts = []
+        self.breaks = []
 
     def fork(self, pc):
         e = Env(self.ctx, self.vars, pc, self.self_ty)
@@ -513,6 +514,7 @@ class Interp:
     def join(self, env, c, ea, va, eb, vb):
         env.returns += ea.returns + eb.returns
         env.conts += ea.conts + eb.conts
+        env.breaks += ea.breaks + eb.breaks
         if ea.pc is FALSE and eb.pc is FALSE:
             env.pc = FALSE
             return va if va is not None else vb
@@ -564,6 +566,7 @@ class Interp:
         env.vars, env.pc = cur_env.vars, cur_env.pc
         env.returns += cur_env.returns
         env.conts += cur_env.conts
+        env.breaks += cur_env.breaks
         return cur_val
 
     # ---- patterns: returns match condition, fills binds
@@ -682,12 +685,12 @@ class Interp:
 
     def snapshot(self, env):
         c = self.ctx
-        return (dict(env.vars), env.pc, len(env.returns), len(env.conts), len(c.assume), len(c.obls), len(c.ok), len(c.panics))
+        return (dict(env.vars), env.pc, len(env.returns), len(env.conts), len(c.assume), len(c.obls), len(c.ok), len(c.panics), len(env.breaks))
 
     def restore(self, env, snap):
         c = self.ctx
         env.vars, env.pc = dict(snap[0]), snap[1]
-        del env.returns[snap[2]:]; del env.conts[snap[3]:]
+        del env.returns[snap[2]:]; del env.conts[snap[3]:]; del env.breaks[snap[8]:]
         del c.assume[snap[4]:]; del c.obls[snap[5]:]; del c.ok[snap[6]:]; del c.panics[snap[7]:]
 
     def mutated_roots(self, node):
@@ -833,6 +836,23 @@ class Interp:
         env.pc = FALSE
         return None
 
+    def ev_break(self, env, n):
+        """`break` (without value): this path leaves the enclosing loop; recorded in env.breaks and re-joined after the unrolled loop
+        (for a loop-body slice it ends the slice: the caller reads env.breaks like env.returns)."""
+        if n.get("label") or n.get("e") is not None: raise Unsupported("labelled break / break with a value")
+        env.breaks.append((env.pc, dict(env.vars)))
+        env.pc = FALSE
+        return None
+
+    def rejoin_breaks(self, env, mark):
+        mine, env.breaks = env.breaks[mark:], env.breaks[:mark]
+        for pc_b, vars_b in mine:
+            if env.pc is FALSE:
+                env.vars, env.pc = dict(vars_b), pc_b
+                continue
+            env.vars = {k: merge(pc_b, vars_b[k], env.vars[k]) for k in env.vars if k in vars_b}
+            env.pc = Or(env.pc, pc_b)
+
     def rejoin_continues(self, env, mark):
         """After one unrolled iteration: paths that hit `continue` resume here with the variables they had."""
         mine, env.conts = env.conts[mark:], env.conts[:mark]
@@ -860,11 +880,14 @@ class Interp:
         lo, hi = r.lo, r.hi
         if tm.is_const(lo) and tm.is_const(hi):
             hi_v = hi.args[0] + (1 if r.inclusive else 0)
+            bmark = len(env.breaks)
             for i in range(lo.args[0], hi_v):
+                if env.pc is FALSE: break
                 if n["pat"]["k"] == "pident": env.vars[n["pat"]["name"]] = Const(i, "Int", "usize")
                 mark = len(env.conts)
                 self.exec_block(env, n["body"])
                 self.rejoin_continues(env, mark)
+            self.rejoin_breaks(env, bmark)
             return UNIT
         # bounds that are case distinctions of literals: iterate over the hull, each iteration guarded by lo <= i (<|<=) hi
         ll, hl = const_leaves(lo), const_leaves(hi)
